@@ -7,11 +7,11 @@ Local Arguments Nat.ltb : simpl never.
 Local Arguments skipn : simpl never.
 
 Lemma base_step_decreases sc s l s1 :
-  inv1 false s -> In (l, s1) (step false sc s) -> mu sc s1 < mu sc s.
+  inv1 false s -> In (l, s1) (step false sc s) -> is_call l = false -> mu sc s1 < mu sc s.
 Proof.
-  intros I H. unfold inv1, mu, mu_s, mu_c, mu_x, cancelled in *.
+  intros I H Hn. unfold inv1, mu, mu_s, mu_c, mu_x, cancelled in *.
   dst s; cbn in *.
-  split_step H; crunch H; cbn in *; subst.
+  split_step H; crunch H; cbn in *; subst; try discriminate.
   all: try (match goal with
             | E : nth_error _ _ = Some _ |- _ => rewrite (skipn_nth_some _ _ _ E); cbn
             | E : nth_error _ _ = None |- _ => rewrite (skipn_nth_none _ _ E); cbn
@@ -26,82 +26,88 @@ Proof.
   all: intuition (try congruence; try discriminate; try lia).
 Qed.
 
+(** Close has succeeded for the Subscribe call in progress: it found the
+    transport installed ([c_ok]) and is past its critical section, or has
+    returned nil since that call was made. *)
+Definition close_succeeded (s : st) : Prop :=
+  c_done s = true \/ (c_ok s = true /\ c_after_base (c_pc s) = true).
+
 Definition inv7 (s : st) : Prop :=
   c_wait s = false /\
-  (match b_impl s with NoImpl => True | Impl j => j = s_att s end) /\
-  (match c_pc s with
-   | CBaseHold | CWait | CRet | CFin => c_ok s = true -> s_curcl s = true
-   | _ => True end).
+  (close_succeeded s -> s_curcl s = true \/ match s_pc s with SRet _ | SFin => True | _ => False end).
 
 Lemma inv7_step sc s l s1 :
   inv1 false s -> inv6 s -> inv7 s -> In (l, s1) (step false sc s) -> inv7 s1.
 Proof.
-  intros I1 I6 I H. dst s; unfold inv1, inv6, inv7 in *; cbn in *;
+  intros I1 I6 I H.
+  pose proof (proj1 (proj2 (proj2 (proj2 (proj2 I1)))) eq_refl) as [HR [HL _]]. clear I1.
+  dst s; unfold inv6, inv7, close_succeeded in *; cbn in *;
   split_step H; crunch H; cbn in *; splitifs; rewrite ?Nat.eqb_refl in *;
-  try solve [intuition (try congruence; try discriminate)];
-  try destruct cpc0; try destruct bi0; cbn in *; subst; rewrite ?Nat.eqb_refl in *;
-  intuition (try congruence; try discriminate).
-  all: subst; rewrite ?Nat.eqb_refl in *; try discriminate.
+  try solve [intuition (try congruence; try discriminate)].
+  all: try (exfalso; apply HL; reflexivity).
+  all: repeat match goal with E : (_ =? _)%nat = false |- _ => apply Nat.eqb_neq in E end.
+  all: destruct I6 as [I6a [I6b _]]; destruct I as [Ia Ib]; split; [exact Ia|]; intros _.
+  all: destruct (I6b eq_refl) as [Z|Z]; [|subst; right; exact Logic.I].
+  all: exfalso; subst; destruct I6a as [Z1 _]; lia.
 Qed.
 
 Lemma base_invs sc s : reach false sc s -> inv1 false s /\ inv2 false s /\ inv6 s /\ inv7 s.
 Proof.
   revert s. apply reach_ind'.
-  - unfold inv1, inv2, inv6, inv7, init, cancelled; cbn. intuition (try congruence; try discriminate).
+  - unfold inv1, inv2, inv6, inv7, close_succeeded, init, cancelled; cbn.
+    intuition (try congruence; try discriminate).
   - intros s l s1 [I1 [I2 [I6 I7]]] H.
     split; [eapply inv1_step; eauto|]. split; [eapply inv2_step; eauto|].
     split; [eapply inv6_step; eauto|eapply inv7_step; eauto].
 Qed.
 
-Definition close_succeeded (s : st) : Prop :=
-  c_ok s = true /\ match c_pc s with CBaseHold | CWait | CRet | CFin => True | _ => False end.
-
 Lemma base_progress sc s :
-  inv2 false s -> inv6 s -> inv7 s -> close_succeeded s ->
-  sstep false sc s ++ cstep false s = [] -> s_pc s = SFin /\ c_pc s = CFin.
+  inv1 false s -> inv2 false s -> inv6 s -> inv7 s -> close_succeeded s ->
+  nc (sstep false sc s ++ cstep false s) = [] -> s_pc s = SFin /\ c_pc s = CFin.
 Proof.
-  intros I2 I6 I7 [C1 C2] H. apply app_eq_nil in H. destruct H as [Hs Hc].
-  dst s; unfold inv2, inv6, inv7, sstep, cstep, end_attempt, cancelled in *; cbn in *; subst.
-  destruct cpc0; try destruct C2; cbn in Hc; try discriminate;
-  repeat match type of Hc with
-         | (if ?c then _ else _) = [] => destruct c eqn:?; cbn in Hc; try discriminate
-         | match ?c with _ => _ end = [] => destruct c eqn:?; cbn in Hc; try discriminate
-         end;
-  destruct spc0; cbn in Hs; try discriminate;
-  repeat match type of Hs with
-         | (if ?c then _ else _) = [] => destruct c eqn:?; cbn in Hs; try discriminate
-         | match ?c with _ => _ end = [] => destruct c eqn:?; cbn in Hs; try discriminate
-         end;
+  intros [_ [_ [_ [I1 _]]]] I2 I6 [I7a I7] C H. specialize (I7 C).
+  apply nc_app_nil in H. destruct H as [Hs Hc].
+  dst s; unfold inv2, inv6, close_succeeded, sstep, cstep, end_attempt, do_cancel, cancelled in *;
+  cbn in *; subst.
+  destruct cpc0; cbn in Hc; try discriminate; stuck_cases Hc;
+  destruct spc0; cbn in Hs; try discriminate; stuck_cases Hs;
   cbn in *; intuition (try congruence; try discriminate); subst; cbn in *;
   rewrite ?orb_true_r in *; try discriminate.
 Qed.
 
 Lemma close_succeeded_step sc s l s1 :
-  close_succeeded s -> In (l, s1) (step false sc s) -> close_succeeded s1.
+  inv6 s -> close_succeeded s -> In (l, s1) (step false sc s) -> is_call l = false -> close_succeeded s1.
 Proof.
-  intros [C1 C2] H. dst s; unfold close_succeeded in *; cbn in *; subst.
-  split_step H; crunch H; cbn in *; splitifs; try tauto; try (destruct C2).
+  intros I6 C H Hn. pose proof (proj2 (proj2 (proj2 (proj2 (proj2 (proj2 I6)))))) as K. clear I6.
+  dst s; unfold close_succeeded in *; cbn in *.
+  split_step H; crunch H; cbn in *; splitifs; try discriminate; try tauto;
+  destruct C as [C|[C1 C2]]; subst; cbn in *; try discriminate; auto.
 Qed.
 
-(** A bare client: every execution is bounded (there is a single attempt),
-    and once Close has succeeded (it found the transport installed) nothing
-    can block before both Subscribe and Close have returned. *)
+(** A bare client, for any history of earlier (sequential) calls: as long as
+    no new API call is made every execution is bounded (one call = one
+    attempt), and once Close has succeeded for the Subscribe call in progress
+    nothing can block before both have returned. *)
 Theorem close_subscribe_terminate_base sc s :
   reach false sc s ->
-  forall n s', exec (step false sc) s n s' ->
+  forall n s', exec (nc_step false sc) s n s' ->
     n <= mu sc s /\
-    (close_succeeded s -> sstep false sc s' ++ cstep false s' = [] ->
+    (close_succeeded s -> nc (sstep false sc s' ++ cstep false s') = [] ->
      s_pc s' = SFin /\ c_pc s' = CFin).
 Proof.
   intros Hr n s' He. split.
   - revert Hr. induction He; intros Hr; [lia|].
+    apply nc_in in H. destruct H as [H Hn].
     assert (Hr1 : reach false sc s1) by (eapply exec_reach; [exact Hr|]; econstructor; [eauto|constructor]).
     specialize (IHHe Hr1).
-    pose proof (base_step_decreases _ _ _ _ (proj1 (base_invs _ _ Hr)) H). lia.
+    pose proof (base_step_decreases _ _ _ _ (proj1 (base_invs _ _ Hr)) H Hn). lia.
   - intros Hc Hst.
     assert (Hc' : close_succeeded s').
-    { clear Hst Hr. induction He; auto. apply IHHe. eapply close_succeeded_step; eauto. }
-    destruct (base_invs _ _ (exec_reach _ _ _ _ _ Hr He)) as [_ [I2 [I6 I7]]].
+    { clear Hst. induction He; auto. apply nc_in in H. destruct H as [H Hn].
+      assert (Hr1 : reach false sc s1) by (eapply exec_reach; [exact Hr|]; econstructor; [eauto|constructor]).
+      apply IHHe; [exact Hr1|]. eapply close_succeeded_step; eauto.
+      apply (base_invs _ _ Hr). }
+    destruct (base_invs _ _ (exec_reach _ _ _ _ _ Hr (exec_nc _ _ _ _ _ He))) as [I1 [I2 [I6 I7]]].
     eapply base_progress; eauto.
 Qed.
 
